@@ -108,7 +108,7 @@ def build_event(ev):
     return HplSimpleEvent.publish(topic, predicate=build_predicate(pred), alias=alias)
 
 
-NESTING = ['right']  # how build_event nests disjunctions: right | left | balanced | a random.Random
+NESTING = ['right']  # how build_event nests disjunctions: right | left | balanced | derived | a random.Random
 
 
 def nest_disjunction(alts, how):
@@ -121,6 +121,14 @@ def nest_disjunction(alts, how):
         return HplEventDisjunction(alts[0], nest_disjunction(alts[1:], how))
     if how == 'left':
         return HplEventDisjunction(nest_disjunction(alts[:-1], how), alts[-1])
+    if how == 'derived':
+        # right-nested, but every node is a modified copy (but()) of a disjunction that held a decoy alternative
+        from hpl.ast import HplSimpleEvent
+        rest = nest_disjunction(alts[1:], how)
+        decoy = HplSimpleEvent.publish('zz_decoy_%d' % len(alts))
+        if len(alts) % 2:
+            return HplEventDisjunction(decoy, rest).but(event1=alts[0])
+        return HplEventDisjunction(alts[0], decoy).but(event2=rest)
     if how == 'balanced':
         m = len(alts) // 2
         return HplEventDisjunction(nest_disjunction(alts[:m], how), nest_disjunction(alts[m:], how))
